@@ -20,7 +20,7 @@ fn setup<'a>(state: &'a DepthCell) -> (RPort<'a>, PortCfg, u8) {
 }
 
 // @harness c12_announce_receipt_timer
-// @props C12 C08 C03 C17
+// @props C12:quick C08:quick C03:quick C17:quick
 // @tier quick
 // @variant lists2
 // @stubbing yes
@@ -63,7 +63,7 @@ fn c12_announce_receipt_timer() {
 }
 
 // @harness c12_delay_request_timer
-// @props C12 C08 C14 C10 C03 C17
+// @props C12:quick C08:quick C14:quick C10:quick C03:quick C17:quick
 // @tier quick
 // @variant lists2
 // @stubbing yes
@@ -127,7 +127,7 @@ fn c12_delay_request_timer() {
 }
 
 // @harness c12_filter_update_timer
-// @props C12 C08:thorough C03:thorough C17:thorough
+// @props C12:quick C08:thorough C03:thorough C17:thorough
 // @tier quick
 // @variant lists2
 // @timeout 900
@@ -150,7 +150,7 @@ fn c12_filter_update_timer() {
 }
 
 // @harness c12_announce_duration_real
-// @props C12
+// @props C12:quick
 // @tier quick
 // @timeout 600
 // @functions PortConfig::announce_duration, Interval::as_core_duration, core::time::Duration::mul_f64, rand::distributions::Open01
